@@ -1,5 +1,5 @@
 (* C20 — lemmas about the models of Synth/Derived.v (statements re-exported by Props/C20.v). *)
-From Coq Require Import List ZArith QArith Qround Bool Lia ZifyBool Permutation Sorting.Sorted.
+From Coq Require Import List ZArith QArith Qround Bool Lia ZifyBool Permutation Sorting.Sorted Lqa.
 From Outrank Require Import Synth.Derived.
 Import ListNotations.
 Open Scope Z_scope.
@@ -180,3 +180,810 @@ Proof.
   destruct idx as [|a [|b r]]; [congruence| |unfold lenZ in H; cbn [length] in H; lia].
   unfold zrange. cbn. f_equal. lia.
 Qed.
+
+(* ---- the self-description lists exactly the added columns, over any session of calls ---- *)
+Definition st_nc (s : sstate) : Z := snd (fst s).
+Definition st_info (s : sstate) : info := snd s.
+Definition corr_ok (o : op) : Prop := match o with OCorr idx _ => idx <> [] | _ => True end.
+Definition added (o : op) : Z :=
+  match o with ODup idx => lenZ idx | OCombo _ _ => 1 | OCorr idx _ => lenZ idx | _ => 0 end.
+
+Lemma concat_map_app {A B} (f : A -> list B) l1 l2 : concat (map f (l1 ++ l2)) = concat (map f l1) ++ concat (map f l2).
+Proof. rewrite map_app, concat_app. reflexivity. Qed.
+
+Lemma step_listed s o : corr_ok o ->
+  st_nc (step false s o) = st_nc s + added o /\
+  Permutation (listed (st_info (step false s o))) (listed (st_info s) ++ zrange (st_nc s) (Z.to_nat (added o))).
+Proof.
+  destruct s as [[nr nc] [[[[[cb cr] du] lb] no] dn]]. unfold st_nc, st_info.
+  destruct o as [idx|f idx|idx r|rel n|m p|k n]; intros Hok; cbn [step fst snd added listed]; (split; [lia|]).
+  - unfold lenZ. rewrite Nat2Z.id. rewrite concat_map_app. cbn [map concat snd]. rewrite app_nil_r, !app_assoc. reflexivity.
+  - rewrite map_app. cbn [map snd]. change (Z.to_nat 1) with 1%nat. unfold zrange. cbn [seq map Z.of_nat]. rewrite Z.add_0_r.
+    rewrite <- !app_assoc. apply Permutation_app_head. cbn [app].
+    apply Permutation_sym. rewrite app_assoc. apply Permutation_sym. apply Permutation_cons_append.
+  - cbn [corr_ok] in Hok. rewrite concat_map_app. cbn [map concat snd fst]. rewrite app_nil_r.
+    rewrite (corr_indices_zrange nc idx Hok). unfold lenZ. rewrite Nat2Z.id.
+    rewrite <- !app_assoc. apply Permutation_app_head. apply Permutation_app_head. apply Permutation_app_comm.
+  - cbn [Z.to_nat]. unfold zrange. cbn [seq map]. rewrite app_nil_r. reflexivity.
+  - cbn [Z.to_nat]. unfold zrange. cbn [seq map]. rewrite app_nil_r. reflexivity.
+  - cbn [Z.to_nat]. unfold zrange. cbn [seq map]. rewrite app_nil_r. reflexivity.
+Qed.
+
+Lemma added_nonneg o : 0 <= added o.
+Proof. destruct o; cbn [added]; try lia; apply lenZ_nonneg. Qed.
+
+Lemma run_listed ops : forall s, Forall corr_ok ops ->
+  st_nc (fold_left (step false) ops s) = st_nc s + zsum (map added ops) /\
+  Permutation (listed (st_info (fold_left (step false) ops s)))
+              (listed (st_info s) ++ zrange (st_nc s) (Z.to_nat (zsum (map added ops)))).
+Proof.
+  induction ops as [|o r IH]; intros s H.
+  - cbn [fold_left map zsum fold_right]. split; [lia|]. unfold zrange. cbn [Z.to_nat seq map]. rewrite app_nil_r. reflexivity.
+  - inversion H as [|? ? Ho Hr]; subst. cbn [fold_left map]. destruct (step_listed s o Ho) as [E1 P1].
+    destruct (IH (step false s o) Hr) as [E2 P2]. split.
+    + rewrite E2, E1. unfold zsum. cbn [fold_right]. lia.
+    + rewrite P2, P1, E1. rewrite <- app_assoc. apply Permutation_app_head.
+      assert (Hs : 0 <= zsum (map added r)).
+      { clear. induction r as [|a r IH]; cbn [map zsum fold_right]; [lia|]. pose proof (added_nonneg a). unfold zsum in IH. lia. }
+      pose proof (added_nonneg o) as Ha.
+      change (zsum (added o :: map added r)) with (added o + zsum (map added r)).
+      rewrite Z2Nat.inj_add by lia. rewrite zrange_app. rewrite Z2Nat.id by lia. reflexivity.
+Qed.
+
+(* C20_info_exact *)
+Lemma info_exact nr nc ops : Forall corr_ok ops ->
+  st_nc (session nr nc ops) = nc + zsum (map added ops) /\
+  Permutation (listed (st_info (session nr nc ops))) (zrange nc (Z.to_nat (st_nc (session nr nc ops) - nc))).
+Proof.
+  intros H. unfold session. destruct (run_listed ops (nr, nc, info0) H) as [E P]. split; [exact E|].
+  rewrite P, E. unfold st_info, st_nc, info0, listed. cbn [fst snd map concat app].
+  replace (nc + zsum (map added ops) - nc) with (zsum (map added ops)) by lia. reflexivity.
+Qed.
+
+Lemma info_old_refuted : exists nr nc ops, Forall corr_ok ops /\
+  st_nc (session_old nr nc ops) = nc + 2 /\ listed (st_info (session_old nr nc ops)) = [nc] /\
+  ~ In (nc + 1) (listed (st_info (session_old nr nc ops))).
+Proof.
+  exists 4, 3, [ODup [0; 1]]. split; [repeat constructor|]. split; [reflexivity|]. split; [reflexivity|].
+  cbn. intros [H|[]]. discriminate.
+Qed.
+
+(* ------------------------------------------------------------------------------------------ *)
+(* labels *)
+
+Lemma qlt_bool_iff a b : qlt_bool a b = true <-> (a < b)%Q.
+Proof.
+  unfold qlt_bool. rewrite negb_true_iff. split.
+  - intros H. apply Qnot_le_lt. intros Hle. apply Qle_bool_iff in Hle. congruence.
+  - intros H. destruct (Qle_bool b a) eqn:E; [|reflexivity]. apply Qle_bool_iff in E. exfalso. eapply Qlt_not_le; eassumption.
+Qed.
+
+(* the label of a decision value: number of cut points strictly below it *)
+Definition label (cuts : list Q) (x : Z) : Z := lenZ (filter (fun c => qlt_bool c (inject_Z x)) cuts).
+
+Lemma labels_of_label d cuts : labels_of d cuts = map (label cuts) d.
+Proof. reflexivity. Qed.
+
+Lemma label_range cuts x : 0 <= label cuts x <= lenZ cuts.
+Proof.
+  unfold label, lenZ. split; [lia|]. apply inj_le. induction cuts as [|c r IH]; cbn [filter length]; [lia|].
+  destruct (qlt_bool c (inject_Z x)); cbn [length]; lia.
+Qed.
+
+Lemma label_mono cuts a b : a <= b -> label cuts a <= label cuts b.
+Proof.
+  intros Hab. unfold label, lenZ. apply inj_le. induction cuts as [|c r IH]; cbn [filter length]; [lia|].
+  destruct (qlt_bool c (inject_Z a)) eqn:Ea.
+  - assert (Eb : qlt_bool c (inject_Z b) = true).
+    { apply qlt_bool_iff. apply qlt_bool_iff in Ea. eapply Qlt_le_trans; [exact Ea|]. rewrite <- Zle_Qle. exact Hab. }
+    rewrite Eb. cbn [length]. lia.
+  - destruct (qlt_bool c (inject_Z b)); cbn [length]; lia.
+Qed.
+
+(* C20_labels_mono, on positions *)
+Lemma labels_mono d cuts i j : (i < length d)%nat -> (j < length d)%nat ->
+  nth i d 0 <= nth j d 0 -> nth i (labels_of d cuts) 0 <= nth j (labels_of d cuts) 0.
+Proof.
+  intros Hi Hj H. rewrite labels_of_label. rewrite !(nth_map_dflt _ _ _ 0) by assumption. apply label_mono. exact H.
+Qed.
+
+(* sorting *)
+Lemma insert_perm x l : Permutation (insert x l) (x :: l).
+Proof.
+  induction l as [|y r IH]; [reflexivity|]. cbn [insert]. destruct (x <=? y); [reflexivity|].
+  rewrite IH. apply perm_swap.
+Qed.
+Lemma sort_perm l : Permutation (sort l) l.
+Proof. induction l as [|x r IH]; [reflexivity|]. cbn [sort fold_right]. fold (sort r). rewrite insert_perm, IH. reflexivity. Qed.
+Lemma insert_sorted x l : StronglySorted Z.le l -> StronglySorted Z.le (insert x l).
+Proof.
+  induction l as [|y r IH]; intros H; [repeat constructor|]. cbn [insert].
+  inversion H as [|? ? Hr Hall]; subst. destruct (Z.leb_spec x y) as [E|E].
+  - constructor; [exact H|]. constructor; [exact E|]. eapply Forall_impl; [|exact Hall]. intros z Hz; lia.
+  - constructor; [apply IH; exact Hr|].
+    eapply Permutation_Forall; [symmetry; apply insert_perm|]. constructor; [lia|exact Hall].
+Qed.
+Lemma sort_sorted l : StronglySorted Z.le (sort l).
+Proof. induction l as [|x r IH]; [constructor|]. cbn [sort fold_right]. apply insert_sorted. exact IH. Qed.
+Lemma sort_length l : length (sort l) = length l.
+Proof. apply Permutation_length. apply sort_perm. Qed.
+Lemma sort_In x l : In x (sort l) <-> In x l.
+Proof. split; apply Permutation_in; [|symmetry]; apply sort_perm. Qed.
+
+Lemma sorted_le_lt l : NoDup l -> StronglySorted Z.le l -> StronglySorted Z.lt l.
+Proof.
+  induction l as [|x r IH]; intros Hn Hs; [constructor|]. inversion Hn; subst. inversion Hs as [|? ? Hr Hall]; subst.
+  constructor; [apply IH; assumption|]. rewrite Forall_forall in *. intros y Hy. specialize (Hall y Hy).
+  assert (x <> y) by (intros ->; contradiction). lia.
+Qed.
+
+Lemma filter_length_perm {A} (f : A -> bool) l l' : Permutation l l' -> length (filter f l) = length (filter f l').
+Proof.
+  induction 1 as [|x l l' _ IH|x y l|l l' l'' _ IH1 _ IH2]; cbn [filter]; try reflexivity.
+  - destruct (f x); cbn [length]; lia.
+  - destruct (f x), (f y); reflexivity.
+  - congruence.
+Qed.
+
+Lemma sorted_head_le r y : StronglySorted Z.lt r -> In y r -> nth 0 r 0 <= y.
+Proof.
+  intros Hs Hy. destruct r as [|h t]; [destruct Hy|]. cbn [nth]. destruct Hy as [->|Hy]; [lia|].
+  inversion Hs as [|? ? _ Hall]; subst. rewrite Forall_forall in Hall. specialize (Hall y Hy). lia.
+Qed.
+
+Lemma count_sorted (P : Z -> bool) s : forall j, StronglySorted Z.lt s -> (j < length s)%nat ->
+  (forall x, x <= nth j s 0 -> P x = true) ->
+  (forall x, (S j < length s)%nat -> nth (S j) s 0 <= x -> P x = false) ->
+  length (filter P s) = S j.
+Proof.
+  induction s as [|x r IH]; intros j Hs Hj Ht Hf; cbn [length] in Hj; [lia|].
+  inversion Hs as [|? ? Hr Hall]; subst. rewrite Forall_forall in Hall.
+  destruct j as [|j'].
+  - cbn [filter]. rewrite (Ht x) by (cbn [nth]; lia). cbn [length]. f_equal.
+    assert (E : filter P r = []).
+    { clear IH. assert (Hall' : forall y, In y r -> P y = false).
+      { intros y Hy. apply Hf; [cbn [length]; destruct r; [destruct Hy|cbn [length]; lia]|].
+        cbn [nth]. apply sorted_head_le; assumption. }
+      clear -Hall'. induction r as [|y t IH]; [reflexivity|]. cbn [filter]. rewrite (Hall' y) by now left.
+      apply IH. intros z Hz. apply Hall'. now right. }
+    rewrite E. reflexivity.
+  - cbn [filter]. assert (Hjr : (j' < length r)%nat) by lia.
+    rewrite (Ht x) by (cbn [nth]; assert (x < nth j' r 0) by (apply Hall; apply nth_In; exact Hjr); lia).
+    cbn [length]. f_equal. apply IH; [exact Hr|exact Hjr| |].
+    + intros y Hy. apply Ht. cbn [nth]. exact Hy.
+    + intros y Hl Hy. apply Hf; [cbn [length]; lia|]. cbn [nth]. exact Hy.
+Qed.
+
+Lemma sorted_nth_lt s : StronglySorted Z.lt s -> forall i k, (i < k)%nat -> (k < length s)%nat -> nth i s 0 < nth k s 0.
+Proof.
+  induction 1 as [|x r Hr IH Hall]; intros i k Hik Hk; cbn [length] in Hk; [lia|].
+  destruct k as [|k]; [lia|]. destruct i as [|i]; cbn [nth].
+  - rewrite Forall_forall in Hall. apply Hall. apply nth_In. lia.
+  - apply IH; lia.
+Qed.
+
+Lemma inject_Z_sub a b : inject_Z (a - b) = (inject_Z a - inject_Z b)%Q.
+Proof. unfold Z.sub, Qminus. rewrite inject_Z_plus, inject_Z_opp. reflexivity. Qed.
+
+(* where the linear-interpolated percentile of tie-free sorted data sits *)
+Lemma percentile_bracket s q : StronglySorted Z.lt s -> s <> [] -> (0 <= q)%Q -> (q <= 1)%Q ->
+  let j := Qfloor (inject_Z (lenZ s - 1) * q) in
+  0 <= j <= lenZ s - 1 /\
+  (inject_Z (nthZ s j) <= percentile s q)%Q /\
+  (j + 1 <= lenZ s - 1 -> (percentile s q < inject_Z (nthZ s (j + 1)))%Q).
+Proof.
+  intros Hs Hne Hq0 Hq1 j.
+  assert (HN : 1 <= lenZ s) by (destruct s; [congruence|unfold lenZ; cbn [length]; lia]).
+  set (vi := (inject_Z (lenZ s - 1) * q)%Q) in *.
+  assert (HM : (0 <= inject_Z (lenZ s - 1))%Q) by (rewrite <- (Zle_Qle 0); lia).
+  assert (Hv0 : (0 <= vi)%Q) by (unfold vi; nra).
+  assert (Hv1 : (vi <= inject_Z (lenZ s - 1))%Q) by (unfold vi; nra).
+  assert (Hj : 0 <= j <= lenZ s - 1).
+  { split.
+    - change 0 with (Qfloor (inject_Z 0)). apply Qfloor_resp_le. exact Hv0.
+    - rewrite <- (Qfloor_Z (lenZ s - 1)). apply Qfloor_resp_le. exact Hv1. }
+  split; [exact Hj|].
+  pose proof (Qfloor_le vi) as Hg0. pose proof (Qlt_floor vi) as Hg1. fold j in Hg0, Hg1.
+  rewrite inject_Z_plus in Hg1. change (inject_Z 1) with 1%Q in Hg1.
+  unfold percentile. fold vi. fold j.
+  set (g := (vi - inject_Z j)%Q).
+  assert (Hg : (0 <= g)%Q /\ (g < 1)%Q) by (unfold g; split; lra).
+  destruct (Z.le_gt_cases (j + 1) (lenZ s - 1)) as [Hlt|Hge].
+  - rewrite Z.min_l by lia.
+    assert (Hab : nthZ s j < nthZ s (j + 1)).
+    { unfold nthZ. apply sorted_nth_lt; [exact Hs|lia|unfold lenZ in *; lia]. }
+    rewrite Zlt_Qlt in Hab. rewrite (inject_Z_sub (nthZ s (j + 1)) (nthZ s j)).
+    split; [|intros _]; nra.
+  - rewrite Z.min_r by lia. replace (lenZ s - 1) with j by lia. rewrite Z.sub_diag.
+    split; [|lia]. change (inject_Z 0) with 0%Q. lra.
+Qed.
+
+Lemma filter_compl_length {A} (f : A -> bool) l : (length (filter f l) + length (filter (fun x => negb (f x)) l) = length l)%nat.
+Proof. induction l as [|a r IH]; [reflexivity|]. cbn [filter]. destruct (f a); cbn [negb length]; lia. Qed.
+
+(* C20_labels_prop: tie-free decision values, cut = percentile q  ->  #{d <= cut} = floor((N-1) q) + 1 *)
+Lemma labels_prop d q : NoDup d -> d <> [] -> (0 <= q)%Q -> (q <= 1)%Q ->
+  lenZ (filter (fun x => Qle_bool (inject_Z x) (percentile (sort d) q)) d) = Qfloor (inject_Z (lenZ d - 1) * q) + 1.
+Proof.
+  intros Hnd Hne Hq0 Hq1.
+  assert (Hs : StronglySorted Z.lt (sort d)).
+  { apply sorted_le_lt; [|apply sort_sorted]. eapply Permutation_NoDup; [symmetry; apply sort_perm|exact Hnd]. }
+  assert (Hne' : sort d <> []).
+  { intros E. apply Hne. apply Permutation_nil. rewrite <- E. apply sort_perm. }
+  assert (HL : lenZ (sort d) = lenZ d) by (unfold lenZ; rewrite sort_length; reflexivity).
+  destruct (percentile_bracket (sort d) q Hs Hne' Hq0 Hq1) as [Hj [Hlo Hhi]]. rewrite HL in *.
+  set (j := Qfloor (inject_Z (lenZ d - 1) * q)) in *.
+  unfold lenZ at 1. rewrite (filter_length_perm _ d (sort d)) by (symmetry; apply sort_perm).
+  rewrite (count_sorted _ (sort d) (Z.to_nat j) Hs).
+  - lia.
+  - rewrite sort_length. unfold lenZ in Hj. lia.
+  - intros x Hx. apply Qle_bool_iff. eapply Qle_trans; [|exact Hlo]. rewrite <- Zle_Qle. exact Hx.
+  - intros x Hl Hx. rewrite sort_length in Hl. unfold lenZ in Hj.
+    destruct (Qle_bool (inject_Z x) (percentile (sort d) q)) eqn:E; [|reflexivity]. apply Qle_bool_iff in E. exfalso.
+    assert (H1 : j + 1 <= lenZ d - 1) by (unfold lenZ; lia). specialize (Hhi H1).
+    assert (H2 : (inject_Z (nthZ (sort d) (j + 1)) <= inject_Z x)%Q).
+    { rewrite <- Zle_Qle. unfold nthZ. replace (Z.to_nat (j + 1)) with (S (Z.to_nat j)) by lia. exact Hx. }
+    lra.
+Qed.
+
+Lemma labels_above d q : NoDup d -> d <> [] -> (0 <= q)%Q -> (q <= 1)%Q ->
+  lenZ (filter (fun x => qlt_bool (percentile (sort d) q) (inject_Z x)) d) = lenZ d - 1 - Qfloor (inject_Z (lenZ d - 1) * q).
+Proof.
+  intros Hnd Hne Hq0 Hq1. pose proof (labels_prop d q Hnd Hne Hq0 Hq1) as H.
+  pose proof (filter_compl_length (fun x => Qle_bool (inject_Z x) (percentile (sort d) q)) d) as Hc.
+  unfold qlt_bool. unfold lenZ in *. lia.
+Qed.
+
+(* ------------------------------------------------------------------------------------------ *)
+(* noise *)
+
+Lemma upd_length i v l : length (upd i v l) = length l.
+Proof. revert i. induction l as [|a r IH]; intros [|i]; cbn [upd length]; auto. Qed.
+Lemma upd_In i v l x : In x (upd i v l) -> x = v \/ In x l.
+Proof.
+  revert i. induction l as [|a r IH]; intros [|i]; cbn [upd In]; try tauto.
+  - intros [H|H]; auto.
+  - intros [H|H]; auto. destruct (IH _ H); auto.
+Qed.
+Lemma diff_count_refl c : diff_count c c = 0.
+Proof. induction c as [|a r IH]; [reflexivity|]. cbn [diff_count]. rewrite Z.eqb_refl, IH. reflexivity. Qed.
+Lemma diff_count_nonneg a b : 0 <= diff_count a b.
+Proof. revert b. induction a as [|x r IH]; intros [|y s]; cbn [diff_count]; try lia. specialize (IH s). destruct (x =? y); lia. Qed.
+Lemma diff_upd c0 i v c : diff_count c0 (upd i v c) <= diff_count c0 c + 1.
+Proof.
+  revert i c. induction c0 as [|x r IH]; intros i c; [cbn [diff_count]; lia|].
+  destruct c as [|y s]; [destruct i; cbn [upd diff_count]; lia|].
+  destruct i as [|i]; cbn [upd diff_count].
+  - destruct (x =? v), (x =? y); lia.
+  - specialize (IH i s). lia.
+Qed.
+Lemma nth_upd_same i v l d : (i < length l)%nat -> nth i (upd i v l) d = v.
+Proof. revert i. induction l as [|a r IH]; intros [|i] H; cbn [length] in H; cbn [upd nth]; try lia; auto. apply IH. lia. Qed.
+Lemma nth_upd_other i k v l d : i <> k -> nth k (upd i v l) d = nth k l d.
+Proof.
+  revert i k. induction l as [|a r IH]; intros [|i] [|k] H; cbn [upd nth]; try reflexivity; try lia. apply IH. lia.
+Qed.
+
+Lemma dedup_incl l x : In x (dedup l) -> In x l.
+Proof.
+  induction l as [|a r IH]; cbn [dedup]; [tauto|]. destruct (memZ a r); cbn [In]; intros H; [right; auto|].
+  destruct H; auto.
+Qed.
+Lemma dedup_In l x : In x (dedup l) <-> In x l.
+Proof.
+  split; [apply dedup_incl|]. induction l as [|a r IH]; cbn [dedup In]; [tauto|].
+  intros [->|H].
+  - destruct (memZ x r) eqn:E; [apply IH; apply memZ_In; exact E|now left].
+  - destruct (memZ a r); [auto|right; auto].
+Qed.
+Lemma dedup_NoDup l : NoDup (dedup l).
+Proof.
+  induction l as [|a r IH]; cbn [dedup]; [constructor|]. destruct (memZ a r) eqn:E; [exact IH|].
+  constructor; [|exact IH]. rewrite dedup_In. apply memZ_false. exact E.
+Qed.
+Lemma uniq_In y x : In x (uniq y) <-> In x y.
+Proof. unfold uniq. rewrite dedup_In. apply sort_In. Qed.
+Lemma uniq_NoDup y : NoDup (uniq y).
+Proof. apply dedup_NoDup. Qed.
+
+Lemma firstn_incl {A} n (l : list A) x : In x (firstn n l) -> In x l.
+Proof. intros H. rewrite <- (firstn_skipn n l). apply in_or_app. now left. Qed.
+Lemma skipn_incl {A} n (l : list A) x : In x (skipn n l) -> In x l.
+Proof. intros H. rewrite <- (firstn_skipn n l). apply in_or_app. now right. Qed.
+Lemma pyslice_incl l a b x : In x (pyslice l a b) -> In x l.
+Proof. unfold pyslice. intros H. apply firstn_incl in H. apply skipn_incl in H. exact H. Qed.
+
+Lemma lookup_map_In {A} (F : A -> Z * list Z) L k s : lookup k (map F L) = Some s -> exists i, In i L /\ s = snd (F i).
+Proof.
+  induction L as [|a r IH]; cbn [map lookup]; [discriminate|].
+  destruct (F a) as [k' s'] eqn:E. destruct (k =? k').
+  - intros H. inversion H; subst. exists a. split; [now left|]. rewrite E. reflexivity.
+  - intros H. destruct (IH H) as [i [Hi Hs]]. exists i. split; [now right|exact Hs].
+Qed.
+
+Lemma upl_incl fs lv lc k s : lookup k (upl fs lv lc) = Some s -> incl s fs.
+Proof.
+  unfold upl. intros H. apply lookup_map_In in H. destruct H as [i [_ ->]]. cbn [snd].
+  intros x Hx. destruct i as [|i']; apply dedup_incl in Hx; eapply pyslice_incl; exact Hx.
+Qed.
+
+Lemma union_lookup_incl fs lv lc keys vals : union_lookup keys (upl fs lv lc) = Some vals -> incl vals fs.
+Proof.
+  revert vals. induction keys as [|k r IH]; intros vals H; cbn [union_lookup] in H.
+  - inversion H. intros x [].
+  - destruct (lookup k (upl fs lv lc)) as [s|] eqn:E; [|discriminate].
+    destruct (union_lookup r (upl fs lv lc)) as [t|] eqn:E2; [|discriminate]. inversion H; subst.
+    intros x Hx. apply in_app_or in Hx. destruct Hx as [Hx|Hx]; [eapply upl_incl; eassumption|apply (IH t eq_refl); exact Hx].
+Qed.
+
+Lemma flip1_spec fs lv lc ysort inds ix col st col' st' :
+  flip1 lv (upl fs lv lc) ysort inds ix col st = Ok (col', st') ->
+  exists pos v, col' = upd pos v col /\ In v fs.
+Proof.
+  unfold flip1. set (d := upl fs lv lc).
+  destruct (union_lookup (possible lv (nthZ ysort ix)) d) as [vals|] eqn:Ev; [|discriminate].
+  destruct (lookup (nthZ ysort ix) d) as [own|] eqn:Eo; [|discriminate].
+  destruct (filter (fun v => negb (memZ v own)) vals) as [|w vals'] eqn:Ef.
+  - destruct (possible lv (nthZ ysort ix)) as [|p0 pr] eqn:Ep; [discriminate|].
+    destruct st as [|[m l|v|hi k|l|m l] st1]; try discriminate.
+    destruct ((hi =? lenZ (p0 :: pr)) && in_range hi k); [|discriminate].
+    destruct (lookup (nthZ (p0 :: pr) k) d) as [[|v0 vs]|] eqn:El; try discriminate.
+    destruct st1 as [|[m l|v|hi' k'|l|m l] st2]; try discriminate.
+    destruct (memZ v (v0 :: vs)) eqn:Em; [|discriminate]. intros H. inversion H; subst.
+    exists (Z.to_nat (nthZ inds ix)), v. split; [reflexivity|].
+    apply memZ_In in Em. eapply upl_incl; [exact El|exact Em].
+  - destruct st as [|[m l|v|hi k|l|m l] st1]; try discriminate.
+    destruct (memZ v (w :: vals')) eqn:Em; [|discriminate]. intros H. inversion H; subst.
+    exists (Z.to_nat (nthZ inds ix)), v. split; [reflexivity|].
+    apply memZ_In in Em. rewrite <- Ef in Em. apply filter_In in Em. destruct Em as [Em _].
+    eapply union_lookup_incl; eassumption.
+Qed.
+
+Lemma flips_spec fs lv lc ysort inds c0 ixs : forall col st col' st',
+  flips lv (upl fs lv lc) ysort inds ixs col st = Ok (col', st') ->
+  length col' = length col /\
+  (forall x, In x col' -> In x col \/ In x fs) /\
+  diff_count c0 col' <= diff_count c0 col + lenZ ixs.
+Proof.
+  induction ixs as [|ix r IH]; intros col st col' st' H; cbn [flips] in H.
+  - inversion H; subst. split; [reflexivity|]. split; [auto|]. unfold lenZ. cbn [length]. lia.
+  - destruct (flip1 lv (upl fs lv lc) ysort inds ix col st) as [[col1 st1]| |] eqn:E1; try discriminate.
+    destruct (flip1_spec _ _ _ _ _ _ _ _ _ _ E1) as [pos [v [-> Hv]]].
+    destruct (IH _ _ _ _ H) as [HL [HI HD]]. split; [rewrite HL; apply upd_length|]. split.
+    + intros x Hx. destruct (HI x Hx) as [Hx'|Hx']; [|auto]. apply upd_In in Hx'. destruct Hx' as [->|Hx']; auto.
+    + pose proof (diff_upd c0 pos v col). unfold lenZ in *. cbn [length]. lia.
+Qed.
+
+Definition col_cat_ok (k : Z) (c o : list Z) : Prop :=
+  length o = length c /\ diff_count c o <= k /\ forall v, In v o -> In v c.
+
+Lemma noise_col_cat_spec lv lc ysort inds n k col st col' st' :
+  forallb (in_range n) inds = true -> lenZ col = n -> 0 <= k ->
+  noise_col_cat lv lc ysort inds n k col st = Ok (col', st') -> col_cat_ok k col col'.
+Proof.
+  intros Hin Hlen Hk. unfold noise_col_cat.
+  destruct st as [|[m ixs|v|hi k'|l|m l] st1]; try discriminate.
+  destruct (idx_answer_ok n k m ixs) eqn:Ea; [|discriminate]. intros H.
+  destruct (flips_spec _ _ _ _ _ col _ _ _ _ _ H) as [HL [HI HD]].
+  assert (Hfs : incl (map (nthZ col) inds) col).
+  { intros x Hx. apply in_map_iff in Hx. destruct Hx as [i [<- Hi]]. rewrite forallb_forall in Hin. specialize (Hin i Hi).
+    unfold in_range in Hin. unfold nthZ. apply nth_In. unfold lenZ in Hlen. lia. }
+  unfold idx_answer_ok in Ea. rewrite diff_count_refl in HD.
+  split; [exact HL|]. split; [lia|]. intros v Hv. destruct (HI v Hv) as [H1|H1]; [exact H1|apply Hfs; exact H1].
+Qed.
+
+Lemma cols_loop_Forall2 (f : list Z -> list ans -> res (list Z * list ans)) (Q P : list Z -> Prop) (R : list Z -> list Z -> Prop) :
+  (forall c st c' st', Q c -> f c st = Ok (c', st') -> R c c') ->
+  forall cols st out st', Forall Q cols -> cols_loop f cols st = Ok (out, st') -> Forall2 R cols out.
+Proof.
+  intros Hf. induction cols as [|c r IH]; intros st out st' HQ H; cbn [cols_loop] in H.
+  - inversion H. constructor.
+  - inversion HQ; subst. destruct (f c st) as [[c1 st1]| |] eqn:E1; try discriminate.
+    destruct (cols_loop f r st1) as [[r1 st2]| |] eqn:E2; try discriminate. inversion H; subst.
+    constructor; [eapply Hf; eassumption|eapply IH; eassumption].
+Qed.
+
+Lemma finish_Ok {A} (r : res (A * list ans)) a : finish r = Ok a -> r = Ok (a, []).
+Proof. destruct r as [[a' [|x st]]| |]; cbn [finish]; intros H; inversion H; reflexivity. Qed.
+
+Lemma nflip_nonneg n p : 0 <= n -> p_ok p = true -> 0 <= nflip n p <= n.
+Proof.
+  intros Hn Hp. unfold p_ok in Hp. apply andb_true_iff in Hp. destruct Hp as [H0 H1].
+  apply Qle_bool_iff in H0. apply Qle_bool_iff in H1. unfold nflip.
+  assert (Hn' : (0 <= inject_Z n)%Q) by (rewrite <- (Zle_Qle 0); exact Hn).
+  split.
+  - change 0 with (Qfloor (inject_Z 0)). apply Qfloor_resp_le. change (inject_Z 0) with 0%Q. nra.
+  - rewrite <- (Qfloor_Z n) at 2. apply Qfloor_resp_le. nra.
+Qed.
+
+(* C20_noise_cat *)
+Lemma noise_cat_spec cols y p inds st out :
+  Forall (fun c => lenZ c = lenZ y) cols ->
+  noise_cat cols y p inds st = Ok out ->
+  Forall2 (col_cat_ok (nflip (lenZ y) p)) cols out.
+Proof.
+  intros Hc. unfold noise_cat.
+  destruct (is_perm (lenZ y) inds && sortedb (map (nthZ y) inds)) eqn:E1; cbn [negb]; [|discriminate].
+  destruct (p_ok p) eqn:E2; cbn [negb]; [|discriminate]. intros H. apply finish_Ok in H.
+  apply andb_true_iff in E1. destruct E1 as [E1 _]. unfold is_perm in E1.
+  apply andb_true_iff in E1. destruct E1 as [E1 _]. apply andb_true_iff in E1. destruct E1 as [_ Hin].
+  pose proof (nflip_nonneg (lenZ y) p (lenZ_nonneg y) E2) as Hk.
+  eapply (cols_loop_Forall2 _ (fun c => lenZ c = lenZ y) (fun _ => True)); [|exact Hc|exact H].
+  intros c st0 c' st0' Hl Hf. eapply noise_col_cat_spec; [exact Hin|exact Hl|lia|exact Hf].
+Qed.
+
+Lemma forallb_combine_Forall2 {A B} (g : A * B -> bool) a b :
+  length a = length b -> forallb g (combine a b) = true -> Forall2 (fun x y => g (x, y) = true) a b.
+Proof.
+  revert b. induction a as [|x r IH]; intros [|y s] HL H; cbn [length] in HL; try lia; [constructor|].
+  cbn [combine forallb] in H. apply andb_true_iff in H. destruct H as [H1 H2]. constructor; [exact H1|]. apply IH; [lia|exact H2].
+Qed.
+
+Lemma noise_cat_check_sound cols n p out : noise_cat_check cols n p out = true -> Forall2 (col_cat_ok (nflip n p)) cols out.
+Proof.
+  unfold noise_cat_check, same_shape. rewrite !andb_true_iff. intros [[HL HS] HC].
+  apply Nat.eqb_eq in HL. apply forallb_combine_Forall2 in HC; [|exact HL]. apply forallb_combine_Forall2 in HS; [|exact HL].
+  clear HL. induction HC as [|c o r s H1 _ IH]; [constructor|]. inversion HS; subst. constructor; [|apply IH; assumption].
+  cbn [fst snd] in *. apply andb_true_iff in H1. destruct H1 as [Hd Hm].
+  split; [symmetry; apply Nat.eqb_eq; assumption|]. split; [lia|].
+  rewrite forallb_forall in Hm. intros v Hv. apply memZ_In. apply Hm. exact Hv.
+Qed.
+
+(* ---- missing-value noise ---- *)
+Lemma countZ_cons v a l : countZ v (a :: l) = (if v =? a then 1 else 0) + countZ v l.
+Proof. unfold countZ, lenZ. cbn [filter]. destruct (v =? a); cbn [length]; lia. Qed.
+Lemma countZ_nonneg v l : 0 <= countZ v l.
+Proof. apply lenZ_nonneg. Qed.
+Lemma countZ_zero v l : ~ In v l -> countZ v l = 0.
+Proof.
+  induction l as [|a r IH]; intros H; [reflexivity|]. rewrite countZ_cons. cbn [In] in H.
+  destruct (Z.eqb_spec v a); [exfalso; apply H; left; congruence|]. rewrite IH by tauto. reflexivity.
+Qed.
+Lemma countZ_pos v l : In v l -> 0 < countZ v l.
+Proof.
+  induction l as [|a r IH]; intros H; [destruct H|]. rewrite countZ_cons. pose proof (countZ_nonneg v r).
+  destruct H as [->|H]; [rewrite Z.eqb_refl; lia|]. specialize (IH H). destruct (v =? a); lia.
+Qed.
+Lemma countZ_upd m i l : (i < length l)%nat -> nth i l 0 <> m -> countZ m (upd i m l) = countZ m l + 1.
+Proof.
+  revert i. induction l as [|a r IH]; intros [|i] Hi Hn; cbn [length] in Hi; try lia; cbn [upd nth] in *; rewrite !countZ_cons.
+  - rewrite Z.eqb_refl. destruct (Z.eqb_spec m a); [congruence|]. lia.
+  - rewrite IH by (try lia; exact Hn). lia.
+Qed.
+
+Lemma missing_fold_count m ixs : forall col,
+  NoDup ixs -> (forall i, In i ixs -> 0 <= i < lenZ col) -> (forall i, In i ixs -> nthZ col i <> m) ->
+  countZ m (fold_left (fun c ix => updZ ix m c) ixs col) = countZ m col + lenZ ixs.
+Proof.
+  induction ixs as [|ix r IH]; intros col Hnd Hr Hm; cbn [fold_left].
+  - unfold lenZ. cbn [length]. lia.
+  - inversion Hnd; subst. rewrite IH.
+    + unfold updZ. rewrite countZ_upd.
+      * unfold lenZ. cbn [length]. lia.
+      * specialize (Hr ix (or_introl eq_refl)). unfold lenZ in Hr. lia.
+      * apply (Hm ix). now left.
+    + assumption.
+    + intros i Hi. unfold updZ, lenZ. rewrite upd_length. apply Hr. now right.
+    + intros i Hi. unfold updZ, nthZ. rewrite nth_upd_other.
+      * apply (Hm i). now right.
+      * intros E. assert (ix = i).
+        { pose proof (Hr ix (or_introl eq_refl)). pose proof (Hr i (or_intror Hi)). lia. }
+        subst i. contradiction.
+Qed.
+
+Lemma upd_Forall2 (R : Z -> Z -> Prop) m : (forall a, R a m) ->
+  forall c o i, Forall2 R c o -> Forall2 R c (upd i m o).
+Proof.
+  intros HR c o i H. revert i. induction H as [|a b c o Hab Hco IH]; intros [|i]; cbn [upd]; constructor; auto.
+Qed.
+Lemma Forall2_refl_eq (R : Z -> Z -> Prop) : (forall a, R a a) -> forall c, Forall2 R c c.
+Proof. intros HR c. induction c; constructor; auto. Qed.
+
+Lemma Forall2_weaken {A B} (R R' : A -> B -> Prop) a b : (forall x y, R x y -> R' x y) -> Forall2 R a b -> Forall2 R' a b.
+Proof. intros HR H. induction H; constructor; auto. Qed.
+
+Definition col_missing_ok (n k marker : Z) (c o : list Z) : Prop :=
+  Forall2 (fun a b => b = a \/ b = marker) c o /\ (~ In marker c -> countZ marker o = k).
+
+Lemma noise_col_missing_spec n k marker col st col' st' : lenZ col = n ->
+  noise_col_missing n k marker col st = Ok (col', st') -> col_missing_ok n k marker col col'.
+Proof.
+  intros Hlen. unfold noise_col_missing.
+  destruct st as [|[m ixs|v|hi k'|l|m l] st1]; try discriminate.
+  destruct (idx_answer_ok n k m ixs) eqn:Ea; [|discriminate]. intros H. inversion H; subst col' st'. clear H.
+  unfold idx_answer_ok in Ea. rewrite !andb_true_iff in Ea. destruct Ea as [[[_ Hk] Hr] Hnd].
+  split.
+  - assert (G : forall js c o, Forall2 (fun a b => b = a \/ b = marker) c o ->
+        Forall2 (fun a b => b = a \/ b = marker) c (fold_left (fun c ix => updZ ix marker c) js o)).
+    { intros js. induction js as [|ix r IH]; intros c o Hco; cbn [fold_left]; [exact Hco|]. apply IH. unfold updZ. apply upd_Forall2; [auto|exact Hco]. }
+    apply G. apply Forall2_refl_eq. auto.
+  - intros Hnm. rewrite missing_fold_count.
+    + rewrite (countZ_zero _ _ Hnm). lia.
+    + apply nodupb_NoDup. exact Hnd.
+    + intros i Hi. rewrite forallb_forall in Hr. specialize (Hr i Hi). unfold in_range in Hr. lia.
+    + intros i Hi E. apply Hnm. rewrite <- E. unfold nthZ. apply nth_In.
+      rewrite forallb_forall in Hr. specialize (Hr i Hi). unfold in_range, lenZ in *. lia.
+Qed.
+
+(* C20_noise_missing *)
+Lemma noise_missing_spec cols n p marker st out :
+  Forall (fun c => lenZ c = n) cols ->
+  noise_missing cols n p marker st = Ok out ->
+  Forall2 (col_missing_ok n (nflip n p) marker) cols out.
+Proof.
+  intros Hc. unfold noise_missing. destruct (p_ok p); cbn [negb]; [|discriminate]. intros H. apply finish_Ok in H.
+  eapply (cols_loop_Forall2 _ (fun c => lenZ c = n) (fun _ => True)); [|exact Hc|exact H].
+  intros c st0 c' st0' Hl Hf. eapply noise_col_missing_spec; eassumption.
+Qed.
+
+Lemma noise_missing_check_sound cols n p marker out :
+  noise_missing_check cols n p marker out = true -> Forall2 (col_missing_ok n (nflip n p) marker) cols out.
+Proof.
+  unfold noise_missing_check, same_shape. rewrite !andb_true_iff. intros [[HL HS] HC].
+  apply Nat.eqb_eq in HL. apply forallb_combine_Forall2 in HC; [|exact HL]. apply forallb_combine_Forall2 in HS; [|exact HL].
+  clear HL. induction HC as [|c o r s H1 _ IH]; [constructor|]. inversion HS; subst. constructor; [|apply IH; assumption].
+  cbn [fst snd] in *. apply andb_true_iff in H1. destruct H1 as [Hp Hm]. split.
+  - apply forallb_combine_Forall2 in Hp; [|apply Nat.eqb_eq; assumption].
+    eapply Forall2_weaken; [|exact Hp]. cbn [fst snd]. intros a b Hab. apply orb_true_iff in Hab. destruct Hab as [E|E]; apply Z.eqb_eq in E; auto.
+  - intros Hn. apply orb_true_iff in Hm. destruct Hm as [Hm|Hm]; [apply memZ_In in Hm; contradiction|apply Z.eqb_eq; exact Hm].
+Qed.
+
+(* ------------------------------------------------------------------------------------------ *)
+(* down-sampling *)
+
+Definition down_ok (X : mat) (y : list Z) (k : Z) (Xd : mat) (yd : list Z) : Prop :=
+  length Xd = length yd /\
+  (forall lab, In lab (uniq y) -> countZ lab yd = k) /\
+  (forall lab, In lab yd -> In lab y) /\
+  Forall (fun ry => In ry (combine X y)) (combine Xd yd).
+
+Lemma countZ_app v a b : countZ v (a ++ b) = countZ v a + countZ v b.
+Proof. unfold countZ. rewrite filter_app, lenZ_app. reflexivity. Qed.
+Lemma countZ_repeat_same v k : countZ v (repeat v k) = Z.of_nat k.
+Proof. induction k as [|k IH]; [reflexivity|]. cbn [repeat]. rewrite countZ_cons, Z.eqb_refl, IH. lia. Qed.
+Lemma countZ_repeat_other v w k : v <> w -> countZ v (repeat w k) = 0.
+Proof. intros H. apply countZ_zero. intros Hin. apply repeat_spec in Hin. congruence. Qed.
+
+Lemma combine_app {A B} (a a' : list A) (b b' : list B) : length a = length b ->
+  combine (a ++ a') (b ++ b') = combine a b ++ combine a' b'.
+Proof.
+  revert b. induction a as [|x r IH]; intros [|y s] H; cbn [length] in H; try lia; [reflexivity|].
+  cbn [app combine]. f_equal. apply IH. lia.
+Qed.
+
+Lemma Forall_combine_map_repeat {A} (P : A * Z -> Prop) (f : Z -> A) lab ixs : forall k,
+  (forall i, In i ixs -> P (f i, lab)) -> Forall P (combine (map f ixs) (repeat lab k)).
+Proof.
+  induction ixs as [|i r IH]; intros k H; [constructor|]. destruct k as [|k]; [constructor|].
+  cbn [map repeat combine]. constructor; [apply H; now left|]. apply IH. intros j Hj. apply H. now right.
+Qed.
+
+Lemma rows_of_In X y lab row : In row (rows_of X y lab) -> In (row, lab) (combine X y).
+Proof.
+  unfold rows_of. intros H. apply in_map_iff in H. destruct H as [[r l] [E H]]. cbn [fst] in E. subst r.
+  apply filter_In in H. destruct H as [H E]. cbn [snd] in E. apply Z.eqb_eq in E. subst l. exact H.
+Qed.
+
+Lemma down_loop_spec X y n labels : forall st Xd yd st', NoDup labels -> 0 <= n ->
+  down_loop X y n labels st = Ok ((Xd, yd), st') ->
+  length Xd = length yd /\
+  (forall lab, In lab labels -> countZ lab yd = n) /\
+  (forall lab, In lab yd -> In lab labels) /\
+  Forall (fun ry => In ry (combine X y)) (combine Xd yd).
+Proof.
+  induction labels as [|lab r IH]; intros st Xd yd st' Hnd Hn H; cbn [down_loop] in H.
+  - inversion H; subst. split; [reflexivity|]. split; [intros ? []|]. split; [intros ? []|]. constructor.
+  - destruct st as [|[m l|v|hi k'|l|m ixs] st1]; try discriminate.
+    destruct ((m =? lenZ (rows_of X y lab)) && (lenZ ixs =? n) && forallb (in_range m) ixs) eqn:Ea; [|discriminate].
+    destruct (down_loop X y n r st1) as [[[Xr yr] st2]| |] eqn:Er; try discriminate.
+    inversion H; subst Xd yd st'. clear H. inversion Hnd as [|? ? Hnotin Hnd']; subst.
+    destruct (IH _ _ _ _ Hnd' Hn Er) as [HL [HC [HI HF]]].
+    rewrite !andb_true_iff in Ea. destruct Ea as [[Em Ek] Hr]. apply Z.eqb_eq in Em, Ek.
+    assert (HLa : length (map (fun i => nth (Z.to_nat i) (rows_of X y lab) []) ixs) = length (repeat lab (Z.to_nat n))).
+    { rewrite map_length, repeat_length. unfold lenZ in Ek. lia. }
+    split; [rewrite !app_length; lia|]. split; [|split].
+    + intros lab' [<-|Hl]; rewrite countZ_app.
+      * rewrite countZ_repeat_same. rewrite (countZ_zero lab yr); [lia|]. intros Hin. apply Hnotin. apply HI. exact Hin.
+      * rewrite countZ_repeat_other; [rewrite HC by exact Hl; lia|]. intros ->. contradiction.
+    + intros lab' Hin. apply in_app_or in Hin. destruct Hin as [Hin|Hin]; [apply repeat_spec in Hin; left; congruence|right; apply HI; exact Hin].
+    + rewrite combine_app by exact HLa. apply Forall_app. split; [|exact HF].
+      apply Forall_combine_map_repeat. intros i Hi. apply rows_of_In. apply nth_In.
+      rewrite forallb_forall in Hr. specialize (Hr i Hi). unfold in_range, lenZ in *. lia.
+Qed.
+
+Lemma map_nth_seq {A} (l : list A) d : map (fun i => nth i l d) (seq 0 (length l)) = l.
+Proof.
+  induction l as [|a r IH]; [reflexivity|]. cbn [length seq map nth]. f_equal.
+  rewrite <- seq_shift, map_map. cbn [nth]. exact IH.
+Qed.
+
+Lemma NoDup_map_to_nat l : (forall z, In z l -> 0 <= z) -> NoDup l -> NoDup (map Z.to_nat l).
+Proof.
+  induction l as [|a r IH]; intros Hp Hnd; [constructor|]. inversion Hnd; subst. cbn [map]. constructor.
+  - intros Hin. apply in_map_iff in Hin. destruct Hin as [b [E Hb]].
+    assert (a = b) by (pose proof (Hp a (or_introl eq_refl)); pose proof (Hp b (or_intror Hb)); lia). subst b. contradiction.
+  - apply IH; [intros z Hz; apply Hp; now right|assumption].
+Qed.
+
+Lemma is_perm_Permutation n perm : is_perm (Z.of_nat n) perm = true -> Permutation (map Z.to_nat perm) (seq 0 n).
+Proof.
+  unfold is_perm. rewrite !andb_true_iff. intros [[HL Hr] Hnd]. apply Z.eqb_eq in HL. apply nodupb_NoDup in Hnd.
+  rewrite forallb_forall in Hr.
+  apply NoDup_Permutation_bis.
+  - apply NoDup_map_to_nat; [|exact Hnd]. intros z Hz. specialize (Hr z Hz). unfold in_range in Hr. lia.
+  - rewrite map_length, seq_length. unfold lenZ in HL. lia.
+  - intros k Hk. apply in_map_iff in Hk. destruct Hk as [z [<- Hz]]. specialize (Hr z Hz). unfold in_range in Hr. apply in_seq. lia.
+Qed.
+
+Lemma perm_map_nth {A} (l : list A) d perm : is_perm (lenZ l) perm = true ->
+  Permutation (map (fun i => nth (Z.to_nat i) l d) perm) l.
+Proof.
+  intros H. apply is_perm_Permutation in H.
+  transitivity (map (fun i => nth i l d) (seq 0 (length l))); [|rewrite map_nth_seq; reflexivity].
+  rewrite <- (map_map Z.to_nat (fun i => nth i l d)). apply Permutation_map. exact H.
+Qed.
+
+Lemma countZ_perm v l l' : Permutation l l' -> countZ v l = countZ v l'.
+Proof. intros H. unfold countZ, lenZ. rewrite (filter_length_perm _ l l' H). reflexivity. Qed.
+
+Lemma combine_map_map {A B C} (f : C -> A) (g : C -> B) l : combine (map f l) (map g l) = map (fun i => (f i, g i)) l.
+Proof. induction l as [|a r IH]; [reflexivity|]. cbn [map combine]. f_equal. exact IH. Qed.
+
+(* C20_downsample *)
+Lemma downsample_spec X y n reshuffle st Xd yd :
+  downsample X y n reshuffle st = Ok (Xd, yd) ->
+  exists k, down_n y n = Some k /\ 0 <= k /\ down_ok X y k Xd yd /\ lenZ Xd = k * lenZ (uniq y).
+Proof.
+  unfold downsample. destruct (down_n y n) as [k|] eqn:Ek; [|discriminate].
+  destruct (Z.ltb_spec k 0) as [Hk|Hk]; [discriminate|].
+  destruct (down_loop X y k (uniq y) st) as [[[X1 y1] st1]| |] eqn:El; try discriminate.
+  destruct (down_loop_spec X y k (uniq y) _ _ _ _ (uniq_NoDup y) Hk El) as [HL [HC [HI HF]]].
+  assert (Hlen : lenZ y1 = k * lenZ (uniq y)).
+  { clear -El Hk. revert st X1 y1 st1 El. induction (uniq y) as [|lab r IH]; intros st X1 y1 st1 El; cbn [down_loop] in El.
+    - inversion El; subst. unfold lenZ. cbn [length]. lia.
+    - destruct st as [|[m l|v|hi k'|l|m ixs] st0]; try discriminate.
+      destruct ((m =? lenZ (rows_of X y lab)) && (lenZ ixs =? k) && forallb (in_range m) ixs); [|discriminate].
+      destruct (down_loop X y k r st0) as [[[Xr yr] st2]| |] eqn:Er; try discriminate. inversion El; subst.
+      rewrite lenZ_app. rewrite (IH _ _ _ _ Er). unfold lenZ. rewrite repeat_length. cbn [length]. lia. }
+  intros H. exists k. split; [reflexivity|]. split; [exact Hk|].
+  destruct reshuffle.
+  - destruct st1 as [|[m l|v|hi k'|perm|m l] [|a st2]]; try discriminate.
+    destruct (is_perm (lenZ X1) perm) eqn:Ep; [|discriminate]. inversion H; subst Xd yd. clear H.
+    assert (Ep' : is_perm (lenZ y1) perm = true) by (unfold lenZ in *; rewrite <- HL; exact Ep).
+    pose proof (perm_map_nth y1 0 perm Ep') as Py.
+    split; [|unfold is_perm in Ep; rewrite !andb_true_iff in Ep; destruct Ep as [[Ep _] _]; apply Z.eqb_eq in Ep; unfold lenZ in *; rewrite map_length; lia].
+    split; [rewrite !map_length; reflexivity|]. split; [|split].
+    + intros lab Hl. change (map (nthZ y1) perm) with (map (fun i => nth (Z.to_nat i) y1 0) perm).
+      rewrite (countZ_perm lab _ _ Py). apply HC. exact Hl.
+    + intros lab Hl. apply uniq_In. apply HI. eapply Permutation_in; [exact Py|exact Hl].
+    + unfold nthZ. rewrite combine_map_map. apply Forall_forall. intros ry Hry. apply in_map_iff in Hry. destruct Hry as [i [<- Hi]].
+      rewrite Forall_forall in HF. apply HF. rewrite <- combine_nth by exact HL. apply nth_In.
+      rewrite combine_length, <- HL, Nat.min_id.
+      unfold is_perm in Ep. rewrite !andb_true_iff in Ep. destruct Ep as [[_ Hr] _]. rewrite forallb_forall in Hr.
+      specialize (Hr i Hi). unfold in_range, lenZ in Hr. lia.
+  - destruct st1; [|discriminate]. inversion H; subst Xd yd.
+    split; [|unfold lenZ in *; lia]. split; [exact HL|]. split; [exact HC|]. split; [|exact HF].
+    intros lab Hl. apply uniq_In. apply HI. exact Hl.
+Qed.
+
+Lemma list_eqb_eq a b : list_eqb a b = true -> a = b.
+Proof.
+  revert b. induction a as [|x r IH]; intros [|y s]; cbn [list_eqb]; try discriminate; [reflexivity|].
+  rewrite andb_true_iff. intros [E H]. apply Z.eqb_eq in E. f_equal; auto.
+Qed.
+
+Lemma downsample_check_sound X y n Xd yd : downsample_check X y n Xd yd = true ->
+  exists k, down_n y n = Some k /\ down_ok X y k Xd yd.
+Proof.
+  unfold downsample_check. destruct (down_n y n) as [k|]; [|discriminate]. rewrite !andb_true_iff.
+  intros [[[HL HC] HI] HF]. exists k. split; [reflexivity|]. split; [apply Nat.eqb_eq; exact HL|]. split; [|split].
+  - rewrite forallb_forall in HC. intros lab Hl. apply Z.eqb_eq. apply HC. exact Hl.
+  - rewrite forallb_forall in HI. intros lab Hl. apply uniq_In. apply memZ_In. apply HI. exact Hl.
+  - apply Forall_forall. intros [r l] Hrl. rewrite forallb_forall in HF. specialize (HF _ Hrl). apply existsb_exists in HF.
+    destruct HF as [[r' l'] [Hin E]]. cbn [fst snd] in E. apply andb_true_iff in E. destruct E as [E1 E2].
+    apply list_eqb_eq in E1. apply Z.eqb_eq in E2. subst. exact Hin.
+Qed.
+
+(* ------------------------------------------------------------------------------------------ *)
+(* labels: what generate_labels returns *)
+
+Lemma label_percents_range n p pcs : label_percents n p = Some pcs -> Forall (fun pc => (0 <= pc)%Q /\ (pc <= 100)%Q) pcs.
+Proof.
+  unfold label_percents. destruct (negb _); [discriminate|].
+  match goal with |- match ?e with _ => _ end = _ -> _ => destruct e as [l|]; [|discriminate] end.
+  destruct (forallb _ l) eqn:E; [|discriminate]. intros H. inversion H; subst.
+  rewrite forallb_forall in E. apply Forall_forall. intros pc Hpc. specialize (E pc Hpc).
+  apply andb_true_iff in E. destruct E as [E1 E2]. split; apply Qle_bool_iff; assumption.
+Qed.
+
+(* fix b9eb3ad: a class distribution given as a sequence (list or ndarray alike) with n > 2 classes is honoured:
+   the cut percents are the cumulative sums of the first n-1 requested proportions, not multiples of 100/n *)
+Lemma label_percents_list n ps :
+  2 < n -> lenZ ps = n -> Qle_bool (qsum ps) 1 = true ->
+  forallb (fun pc => Qle_bool 0 pc && Qle_bool pc 100) (prefix_sums 0%Q (map (fun x => (x * 100)%Q) (firstn (Z.to_nat (n - 1)) ps))) = true ->
+  label_percents n (PList ps) = Some (prefix_sums 0%Q (map (fun x => (x * 100)%Q) (firstn (Z.to_nat (n - 1)) ps))).
+Proof.
+  intros Hn HL Hs Hr. unfold label_percents. rewrite Hs, HL, Z.leb_refl. cbn [andb negb].
+  destruct (Z.ltb_spec 2 n); [|lia]. rewrite Z.eqb_refl. rewrite Hr. reflexivity.
+Qed.
+
+Lemma gen_labels_spec d n p y : gen_labels d n p = Some y ->
+  exists pcs, label_percents n p = Some pcs /\ d <> [] /\ y = map (label (cut_points d pcs)) d /\ length y = length d.
+Proof.
+  unfold gen_labels. destruct d as [|d0 dr]; [discriminate|]. destruct (label_percents n p) as [pcs|]; [|discriminate].
+  intros H. injection H as <-. exists pcs. split; [reflexivity|]. split; [discriminate|]. split; [reflexivity|].
+  exact (map_length _ (d0 :: dr)).
+Qed.
+
+(* C20_labels_class_sizes: tie-free decision values; for every cut percent pc the code uses,
+   exactly N - 1 - floor((N-1) pc/100) items lie above that cut point *)
+Lemma labels_class_sizes d n p y : gen_labels d n p = Some y -> NoDup d ->
+  exists pcs, label_percents n p = Some pcs /\ y = map (label (cut_points d pcs)) d /\
+    forall pc, In pc pcs ->
+      lenZ (filter (fun x => qlt_bool (percentile (sort d) (pc / 100)) (inject_Z x)) d)
+      = lenZ d - 1 - Qfloor (inject_Z (lenZ d - 1) * (pc / 100)).
+Proof.
+  intros H Hnd. destruct (gen_labels_spec _ _ _ _ H) as [pcs [Hp [Hne [Hy _]]]]. exists pcs. split; [exact Hp|]. split; [exact Hy|].
+  intros pc Hpc. pose proof (label_percents_range _ _ _ Hp) as Hr. rewrite Forall_forall in Hr. destruct (Hr pc Hpc) as [H0 H1].
+  apply labels_above; try assumption.
+  - apply Qle_shift_div_l; [reflexivity|]. lra.
+  - apply Qle_shift_div_r; [reflexivity|]. lra.
+Qed.
+
+(* ------------------------------------------------------------------------------------------ *)
+(* labels_mono in one statement: the label is the number of cut points strictly below the decision value *)
+Lemma labels_count d cuts :
+  labels_of d cuts = map (label cuts) d /\
+  (forall x, label cuts x = lenZ (filter (fun c => qlt_bool c (inject_Z x)) cuts)) /\
+  (forall c x, qlt_bool c x = true <-> (c < x)%Q) /\
+  (forall x, 0 <= label cuts x <= lenZ cuts) /\
+  (forall a b, a <= b -> label cuts a <= label cuts b).
+Proof.
+  split; [reflexivity|]. split; [reflexivity|]. split; [apply qlt_bool_iff|]. split; [apply label_range|apply label_mono].
+Qed.
+
+(* the comparison at a cut point is strict: a decision value equal to the cut stays in the lower class;
+   the >= variant (a plausible rewrite) differs exactly there *)
+Lemma labels_strict_matters : exists d cuts, labels_of d cuts <> labels_of_ge d cuts.
+Proof. exists [1; 2; 3], [inject_Z 2]. vm_compute. discriminate. Qed.
+
+(* categorical noise on labels that are not 0..k-1: the per-label dictionary is indexed by position -> KeyError *)
+Lemma noise_cat_needs_standard_labels :
+  noise_cat [[1; 4; 7; 0; 3; 9]; [20; 50; 80; 10; 30; 90]] [1; 2; 1; 2; 2; 1] (1 # 2) [0; 2; 5; 1; 3; 4] [AIdx 6 [5; 2; 4]] = Raises.
+Proof. vm_compute. reflexivity. Qed.
+
+(* ------------------------------------------------------------------------------------------ *)
+(* non-vacuity: each theorem's hypotheses are satisfied by concrete inputs (recorded from real runs where an oracle is involved) *)
+Example ex_dup : gen_duplicates [[1; 2; 3]; [4; 5; 6]] [0; -1] = Some ([[1; 2; 3; 1; 3]; [4; 5; 6; 4; 6]], ([0; -1], [3; 4])).
+Proof. vm_compute. reflexivity. Qed.
+Example ex_combo : gen_combinations [[1; 2; 3]; [4; 5; 6]] CXor [0; 1; -1] = Some ([[1; 2; 3; 0]; [4; 5; 6; 7]], ([0; 1; -1], CXor, 3)).
+Proof. vm_compute. reflexivity. Qed.
+Example ex_session :
+  let s := session 4 3 [ODup [0; 2]; OCombo CXor [0; 1; -1]; ODup [1]; OCorr [2] (1 # 2); ONoise true (1 # 3); OCorr [0; 1] (1 # 4)] in
+  st_nc s = 10 /\ listed (st_info s) = [5; 7; 8; 9; 3; 4; 6].
+Proof. vm_compute. split; reflexivity. Qed.
+Example ex_labels_prop :
+  let d := [50; 10; 90; 30; 70; 110; 20; 80; 60; 100; 40] in
+  NoDup d /\ lenZ (filter (fun x => Qle_bool (inject_Z x) (percentile (sort d) (3 # 10))) d) = 4
+  /\ Qfloor (inject_Z (lenZ d - 1) * (3 # 10)) + 1 = 4.
+Proof. split; [apply nodupb_NoDup; vm_compute; reflexivity|]. vm_compute. split; reflexivity. Qed.
+(* b9eb3ad: 11 tie-free values, distribution (0.2, 0.3, 0.5) -> classes of 3, 3, 5; the uniform cut points would give 4, 3, 4 *)
+Example ex_labels_ndarray :
+  let d := [50; 10; 90; 30; 70; 110; 20; 80; 60; 100; 40] in
+  gen_labels d 3 (PList [1 # 5; 3 # 10; 1 # 2]) = Some [1; 0; 2; 0; 2; 2; 0; 2; 1; 2; 1] /\
+  gen_labels d 3 (PScalar (1 # 2)) = Some [1; 0; 2; 0; 1; 2; 0; 2; 1; 2; 0].
+Proof. vm_compute. split; reflexivity. Qed.
+Example ex_noise_cat :
+  noise_cat [[1; 4; 7; 0; 3; 9]; [20; 50; 80; 10; 30; 90]; [3; 6; 10; 5; 3; 9]] [0; 1; 0; 1; 2; 2] (1 # 2) [0; 2; 1; 3; 4; 5]
+    [AIdx 6 [5; 2; 4]; AVal 7; AVal 1; AVal 7; AIdx 6 [2; 1; 4]; AVal 20; AVal 50; AVal 20; AIdx 6 [4; 2; 1]; AVal 3; AVal 3; AVal 6]
+  = Ok [[1; 1; 7; 0; 7; 7]; [20; 20; 50; 10; 20; 90]; [3; 3; 6; 5; 3; 9]].
+Proof. vm_compute. reflexivity. Qed.
+Example ex_noise_missing :
+  noise_missing [[1; 4; 7; 0; 3; 9]; [20; 50; 80; 10; 30; 90]] 6 (1 # 2) (-1) [AIdx 6 [5; 2; 4]; AIdx 6 [5; 1; 4]]
+  = Ok [[1; 4; -1; 0; -1; -1]; [20; -1; 80; 10; -1; -1]].
+Proof. vm_compute. reflexivity. Qed.
+Example ex_downsample :
+  downsample [[1; 20; 3]; [4; 50; 6]; [7; 80; 10]; [0; 10; 5]; [3; 30; 3]; [9; 90; 9]; [1; 1; 1]] [0; 1; 0; 1; 2; 2; 0] None true
+    [ASample 3 [0; 1]; ASample 2 [1; 0]; ASample 2 [1; 0]; APerm [2; 1; 4; 0; 3; 5]]
+  = Ok ([[0; 10; 5]; [7; 80; 10]; [9; 90; 9]; [1; 20; 3]; [4; 50; 6]; [3; 30; 3]], [1; 0; 2; 0; 1; 2]).
+Proof. vm_compute. reflexivity. Qed.
